@@ -23,6 +23,16 @@ where
     B: HasKey<K>,
     <B as HasKey<K>>::Key: Clone,
 {
+    id_checks_with::<B, P, K>(rep, kind, keykind, key, None)
+}
+
+/// `independent`: the canonical encoding of this key derived without the library (from the secret
+/// material by the other primitive family / an independent DER writer), when the caller has one
+fn id_checks_with<B: Backend, P: Prims, K: KeyType>(rep: &mut Report, kind: &str, keykind: &str, key: &Key<B, K>, independent: Option<&[u8]>) -> Option<[u8; 33]>
+where
+    B: HasKey<K>,
+    <B as HasKey<K>>::Key: Clone,
+{
     let text = key_text(key);
     let detail = |what: &str| json!({"backend": B::NAME, "kind": kind, "key_text": text.chars().take(200).collect::<String>(), "what": what});
     let id = match guard(|| key.id()) {
@@ -32,6 +42,12 @@ where
             return None;
         }
     };
+    if let Some(ind) = independent {
+        let want_ind = r::key_id::<P>(B::VER, kind, &format!("k{}.{keykind}.{}", B::VER, crate::b64::encode(ind)));
+        if *id.as_bytes() != want_ind {
+            rep.violation(&format!("C13|{}|{kind}|differs-from-independently-encoded-key", B::NAME), detail(&format!("library id {} ; digest over the independently derived encoding {} is {}", hx(id.as_bytes()), hx_short(ind), hx(&want_ind))));
+        }
+    }
     let want = r::key_id::<P>(B::VER, kind, &format!("k{}.{keykind}.{}", B::VER, crate::b64::encode(&key_bytes(key))));
     if *id.as_bytes() != want {
         rep.violation(&format!("C13|{}|{kind}|differs-from-reference", B::NAME), detail(&format!("library {} reference {}", hx(id.as_bytes()), hx(&want))));
@@ -81,8 +97,16 @@ fn backend<B: Backend, P: Prims>(opts: &Opts, rep: &mut Report) {
         let lraw: [u8; 32] = if B::VER % 2 == 0 && rng.chance(1, 2) { key_bytes(&pk).try_into().unwrap() } else { rng.arr() };
         let l = local_key::<B>(&lraw);
         let lid = id_checks::<B, P, Local>(rep, "lid", "local", &l);
-        let sid = id_checks::<B, P, Secret>(rep, "sid", "secret", &sk);
-        let pid = id_checks::<B, P, Public>(rep, "pid", "public", &pk);
+        // the encodings the ids are computed over, derived without the library
+        let sk_raw_in = key_bytes(&sk);
+        let ind_sk: Option<Vec<u8>> = if B::VER == 1 { rsapool::canonical_secret(&sk_raw_in) } else { None };
+        let ind_pk: Option<Vec<u8>> = match B::VER {
+            1 => ind_sk.as_deref().map(rsapool::public_of),
+            3 => sk_raw_in.as_slice().try_into().ok().and_then(|a| P::p384_pk(a)).map(|p| p.to_vec()),
+            _ => sk_raw_in.get(..32).and_then(|x| x.try_into().ok()).map(|a| P::ed25519_pk(a).to_vec()),
+        };
+        let sid = id_checks_with::<B, P, Secret>(rep, "sid", "secret", &sk, ind_sk.as_deref());
+        let pid = id_checks_with::<B, P, Public>(rep, "pid", "public", &pk, ind_pk.as_deref());
         // the key-sealing key kinds have ids too (same headers as public / secret)
         let (ps, pp) = B::gen_pke_pair(&mut rng);
         if let (Ok(pks), Ok(pkp)) = (key_from_bytes::<B, PkeSecret>(&ps), key_from_bytes::<B, PkePublic>(&pp)) {
@@ -371,7 +395,7 @@ pub fn run(opts: &Opts) {
     }
     rep.set(
         "rule",
-        json!("thousands of generated keys per backend (tens of RSA keys): lid/sid/pid compared with the reference digest (other primitive family) of 'kN.xid.' || canonical PASERK text, checked stable across clone / text / raw round-trips (v1: PEM vs DER), pairwise distinct for related keys (incl. a local key whose bytes equal the public key), text round-trip; id strings of every decoded length 0..70; 10^4 id pairs (equal, last-bit, one-byte, random) for Eq/Ord/Hash against the bytes; sibling backends compared; keys supplied in unusual accepted encodings (non-canonical Ed25519 y, x = 0 with sign bit, small order, boundary scalars): id = digest of the text as supplied (v1: of the canonical DER when PEM or a DER with other CRT integers is supplied), equal across siblings; distinct = distinct keys / strings / pairs"),
+        json!("thousands of generated keys per backend (tens of RSA keys): lid/sid/pid compared with the reference digest (other primitive family) of 'kN.xid.' || canonical PASERK text - both of the library's serialisation and of an encoding of the same key derived without the library (public half from the secret by the other family; v1: an independent DER writer) -, checked stable across clone / text / raw round-trips (v1: PEM vs DER), pairwise distinct for related keys (incl. a local key whose bytes equal the public key), text round-trip; id strings of every decoded length 0..70; 10^4 id pairs (equal, last-bit, one-byte, random) for Eq/Ord/Hash against the bytes; sibling backends compared; keys supplied in unusual accepted encodings (non-canonical Ed25519 y, x = 0 with sign bit, small order, boundary scalars): id = digest of the text as supplied (v1: of the canonical DER when PEM or a DER with other CRT integers is supplied), equal across siblings; distinct = distinct keys / strings / pairs"),
     );
     rep.finish(opts);
 }
